@@ -50,7 +50,7 @@ Key(E, f, a) == ((OutDeg(E, a) * 10 + InDeg(E, a)) * 10 + OCode(f[a][1])) * 10 +
 Sorted(n, E, f) == \A a \in 1..(n - 1) : Key(E, f, a) <= Key(E, f, a + 1)
 ShapesOf(n) == {[n |-> n, edges |-> E, kinds |-> f] : <<E, f>> \in
                   UNION {{<<E, f>> : f \in {g \in Decor(E, n) : Sorted(n, E, g)}} : E \in EdgeSets(n)}}
-AllShapes == UNION {ShapesOf(n) : n \in 1..MaxNodes}
+AllShapes(dummy) == UNION {ShapesOf(n) : n \in 1..MaxNodes}   \* (a parameter: not evaluated eagerly at start-up in the other mode)
 ShapeJson(s) ==
   [n |-> s.n, edges |-> SetToSeq(s.edges),
    orig |-> [a \in 1..s.n |-> s.kinds[a][1]], dest |-> [a \in 1..s.n |-> s.kinds[a][2]]]
@@ -72,6 +72,9 @@ ExtraShapes == <<
   \* a long link (12 segments: two-digit segment indices) after a mainstream origin, a ramp, a second long link
   [n |-> 3, edges |-> <<<<1, 2>>, <<2, 3>>>>, orig |-> <<"mainstream", "ramp_out", NoneK>>, dest |-> <<NoneK, NoneK, "free">>, long |-> {1}],
   [n |-> 4, edges |-> <<<<1, 2>>, <<2, 3>>, <<2, 4>>>>, orig |-> <<"ideal", NoneK, NoneK, NoneK>>, dest |-> <<NoneK, NoneK, "congested", "free">>, long |-> {2}],
+  \* four entering links at one node; five leaving links at one node
+  [n |-> 6, edges |-> <<<<1, 5>>, <<2, 5>>, <<3, 5>>, <<4, 5>>, <<5, 6>>>>, orig |-> <<"mainstream", "ramp_out", "ideal", "simp_limited", "ramp_in", NoneK>>, dest |-> <<NoneK, NoneK, NoneK, NoneK, NoneK, "congested">>],
+  [n |-> 7, edges |-> <<<<1, 2>>, <<2, 3>>, <<2, 4>>, <<2, 5>>, <<2, 6>>, <<2, 7>>>>, orig |-> <<"mainstream", NoneK, NoneK, NoneK, NoneK, NoneK, NoneK>>, dest |-> <<NoneK, NoneK, "free", "congested", "free", "congested", "free">>],
   \* two entering and three leaving links at one node
   [n |-> 6, edges |-> <<<<1, 3>>, <<2, 3>>, <<3, 4>>, <<3, 5>>, <<3, 6>>>>, orig |-> <<"mainstream", "ramp_in", NoneK, NoneK, NoneK, NoneK>>, dest |-> <<NoneK, NoneK, NoneK, "free", "congested", "free">>]
   >>
@@ -134,9 +137,12 @@ NetOf(s, k) ==
                    LET a == CHOOSE a \in 1..s.n : DestId(a) = id
                    IN [node |-> NodeId(a), kind |-> IF s.dest[a] = "dest" THEN Tab(DestSeq, a + k) ELSE s.dest[a]]]]
 
-ParOf(k) == [T |-> RQ(1, 360), tau |-> RQ(1, 200), eta |-> RQ(60, 1), kappa |-> RQ(40, 1),
-             delta |-> RParse("0.0122"), phi |-> RQ(2, 1),
-             hasDelta |-> (k % 4) \in {0, 1}, hasPhi |-> (k % 4) \in {0, 2}]
+\* model parameters: the usual ones, and (by the index i = variant + shape) relations that flip: tau < T (sampling
+\* time above the time constant), small anticipation constant, weaker anticipation
+ParOf(k, i) == [T |-> RQ(1, 360), tau |-> IF i % 3 = 2 THEN RQ(1, 500) ELSE RQ(1, 200),
+                eta |-> IF i % 2 = 1 THEN RQ(35, 1) ELSE RQ(60, 1), kappa |-> IF i % 4 = 3 THEN RQ(13, 1) ELSE RQ(40, 1),
+                delta |-> RParse("0.0122"), phi |-> RQ(2, 1),
+                hasDelta |-> (k % 4) \in {0, 1}, hasPhi |-> (k % 4) \in {0, 2}]
 
 OptsOf(c) == [pis |-> (c % 2) = 1, pid |-> ((c \div 2) % 2) = 1, piq |-> ((c \div 4) % 2) = 1,
               pns |-> ((c \div 8) % 2) = 1, pnd |-> ((c \div 16) % 2) = 1, pnq |-> ((c \div 32) % 2) = 1]
@@ -260,14 +266,14 @@ CaseAt(i) ==     \* i in 0..Total-1
       opts == IF Family = "opts" THEN OptsOf(HashMod(<<key, "opts">>, 64)) ELSE NoOpts
   IN [id |-> Family \o "-s" \o ToString(si) \o "-k" \o ToString(k) \o "-p" \o ToString(p), src |-> "tlc",
       shape |-> si, variant |-> k, point |-> kind,
-      net |-> NetJson(net), par |-> ParJson(ParOf(k + Seed)), opts |-> opts, x |-> pt.x, u |-> pt.u, d |-> pt.d,
+      net |-> NetJson(net), par |-> ParJson(ParOf(k + Seed, k + Seed + si)), opts |-> opts, x |-> pt.x, u |-> pt.u, d |-> pt.d,
       valid_in_model |-> ValidNet(net),
       twin |-> IF Family = "neutral" THEN TwinOf(net, rawpt, kind) ELSE [expect |-> "none"]]
 
 VARIABLE i
 Init == i = 0
 NextShapes == /\ i = 0
-              /\ \A s \in AllShapes : PrintT("SHAPE " \o ToJson(ShapeJson(s)))
+              /\ \A s \in AllShapes(i) : PrintT("SHAPE " \o ToJson(ShapeJson(s)))
               /\ i' = 1
 NextCases == /\ i < Total
              /\ (i % NShards = Shard) => PrintT("CASE " \o ToJson(CaseAt(i)))
